@@ -3,6 +3,7 @@ package main
 import (
 	"fmt"
 	"go/ast"
+	"go/token"
 	"strings"
 )
 
@@ -279,6 +280,84 @@ func extractMuxBroker(p *pkgs, f *facts) {
 			}
 		}
 	}
+	// MuxBroker.Accept's timer arm: only ExprStmt / DeferStmt / ReturnStmt / plain statements without any channel operation,
+	// select, for or go; `delete(m.streams, …)` only there and in timeoutWait
+	straight, mapOwned := false, true
+	if acc := p.fn("MuxBroker", "Accept"); acc != nil {
+		sels, _ := selectsOf(p, acc)
+		for _, si := range sels {
+			for _, c := range si.stmt.Body.List {
+				cc := c.(*ast.CommClause)
+				if cc.Comm == nil || !strings.Contains(commString(cc.Comm), "time.After") {
+					continue
+				}
+				straight = true
+				for _, b := range cc.Body {
+					ast.Inspect(b, func(n ast.Node) bool {
+						switch v := n.(type) {
+						case *ast.SelectStmt, *ast.ForStmt, *ast.RangeStmt, *ast.GoStmt, *ast.SendStmt:
+							straight = false
+						case *ast.UnaryExpr:
+							if v.Op == token.ARROW {
+								straight = false
+							}
+						}
+						return true
+					})
+				}
+			}
+		}
+	}
+	nDel := 0
+	for _, file := range p.files {
+		for _, d := range file.Decls {
+			fd, ok := d.(*ast.FuncDecl)
+			if !ok || fd.Body == nil || recvTypeName(fd) != "MuxBroker" {
+				continue
+			}
+			ast.Inspect(fd.Body, func(n ast.Node) bool {
+				if ce, ok := n.(*ast.CallExpr); ok && exprString(ce.Fun) == "delete" && len(ce.Args) == 2 && strings.HasSuffix(exprString(ce.Args[0]), ".streams") {
+					nDel++
+					if fd.Name.Name != "Accept" && fd.Name.Name != "timeoutWait" {
+						mapOwned = false
+					}
+				}
+				return true
+			})
+		}
+	}
+	// within Accept the delete sits in the timer arm only
+	if acc := p.fn("MuxBroker", "Accept"); acc != nil {
+		inArm, total := 0, 0
+		ast.Inspect(acc.Body, func(n ast.Node) bool {
+			if ce, ok := n.(*ast.CallExpr); ok && exprString(ce.Fun) == "delete" {
+				total++
+			}
+			return true
+		})
+		sels, _ := selectsOf(p, acc)
+		for _, si := range sels {
+			for _, c := range si.stmt.Body.List {
+				cc := c.(*ast.CommClause)
+				if cc.Comm != nil && strings.Contains(commString(cc.Comm), "time.After") {
+					for _, b := range cc.Body {
+						ast.Inspect(b, func(n ast.Node) bool {
+							if ce, ok := n.(*ast.CallExpr); ok && exprString(ce.Fun) == "delete" {
+								inArm++
+							}
+							return true
+						})
+					}
+				}
+			}
+		}
+		if inArm != total {
+			mapOwned = false
+		}
+	}
+	mapOwned = mapOwned && nDel >= 2
+	f.lean = append(f.lean, fmt.Sprintf("def muxAccept : MuxBroker.AcceptParams := ⟨%s, %s⟩", leanBool(straight), leanBool(mapOwned)))
+	f.set("muxAccept", map[string]interface{}{"timeoutArmStraight": straight, "mapOwnedByAcceptSide": mapOwned})
 	f.lean = append(f.lean, fmt.Sprintf("def muxFrame : MuxFrame.Params := ⟨%s, %s⟩", leanBool(exact), leanBool(noDeadline)))
 	f.set("muxFrame", map[string]interface{}{"headerReadExact": exact, "noDeadlineLeft": noDeadline})
 }
